@@ -21,8 +21,8 @@ Local Open Scope list_scope.
 
 Inductive family := FUniform | FGaussian | FLogUniform | FLogGaussian.
 
-(* MessageException (negative sigma) | PriorException (limits) | IndexError | KeyError | TypeError *)
-Inductive exn := EMessage | EPrior | EIndex | EKey | EType.
+(* MessageException (negative sigma) | PriorException (limits) | IndexError | KeyError | TypeError | AttributeError *)
+Inductive exn := EMessage | EPrior | EIndex | EKey | EType | EAttr.
 
 Inductive res (A : Type) := Ok (a : A) | Exc (e : exn).
 Arguments Ok {A}. Arguments Exc {A}.
@@ -67,6 +67,7 @@ Section Structure.
           | Some l', Some r' => Some (NBin o ln rn l' r')
           | _, _ => None
           end
+      | NUn o nm c => option_map (NUn o nm) (rebuild c)          (* ModifiedPrior: copy, new.prior *)
       | NModel cls ctor attrs =>                                 (* Model: deep copy; tuple priors, direct priors,
                                                                     direct floats and child models re-set in place *)
           option_map (NModel cls ctor)
@@ -114,7 +115,7 @@ Section Structure.
         | Some k => Some k
         | None => if has_prior q n then Some cls else None
         end
-    | NBin _ _ _ _ _ => if has_prior q n then Some "float" else None
+    | NBin _ _ _ _ _ | NUn _ _ _ => if has_prior q n then Some "float" else None   (* (legacy view; unary forms did not exist in its record) *)
     | NColl attrs =>
         if existsb (fun kc => match snd kc with NPrior p => Nat.eqb p q | _ => false end) attrs
         then Some "ModelInstance"
@@ -133,14 +134,44 @@ Section Structure.
      kept for the legacy witness. *)
   Definition own_place_class : bool := true.
 
+  (* ModifiedPrior.cls is `self.prior.cls`: defined (float) when the chain of unary forms ends in a CompoundPrior,
+     an AttributeError when it ends in a Prior (a Prior has no `cls`) -- then hasattr(holder, "cls") is False and
+     holder.prior_class_dict[prior] evaluates self.cls again and raises (finding C12 modified-prior-cls).
+     Gen.modified_prior_cls_falls_back is read from the source of ModifiedPrior.cls on every run: true once the class
+     falls back to float (proposed_fixes/C12-modified-prior-cls.diff); then every unary form has the class float *)
+  Fixpoint un_has_cls (c : node) : bool :=
+    match c with
+    | NBin _ _ _ _ _ => true
+    | NUn _ _ c' => un_has_cls c'
+    | _ => false
+    end.
+
+  (* A Collection has no `cls`: for a prior it holds directly the class comes from collection.prior_class_dict[prior],
+     which is computed over EVERY prior model below the collection; the entry of a unary form that holds a prior
+     directly evaluates its `cls` -- so (before the repair) one -p anywhere below makes the lookup of the collection's
+     own priors raise as well *)
+  Fixpoint has_bare_un (n : node) : bool :=
+    match n with
+    | NUn _ _ c => is_prior V c || has_bare_un c
+    | NBin _ _ _ l r => has_bare_un l || has_bare_un r
+    | NModel _ _ attrs | NColl attrs =>
+        (fix go (a : list (string * node)) : bool :=
+           match a with [] => false | (_, c) :: a' => has_bare_un c || go a' end) attrs
+    | _ => false
+    end.
+
+  Definition coll_own (n : node) : option string :=
+    if negb modified_prior_cls_falls_back && has_bare_un n then None else Some "ModelInstance".
+
   Fixpoint holder_class (p : path) (n : node) : option string :=
     match p with
     | [] => None
     | k :: p' =>
         let own := match n with
                    | NModel cls _ _ => Some cls
-                   | NColl _ => Some "ModelInstance"
+                   | NColl _ => coll_own n
                    | NBin _ _ _ _ _ => Some "float"
+                   | NUn _ _ c => if un_has_cls c || modified_prior_cls_falls_back then Some "float" else None
                    | _ => None
                    end in
         match p' with
@@ -168,6 +199,13 @@ Section Structure.
                                        | _ => holder_class p' c
                                        end in
                 if String.eqb k rn then down r else if String.eqb k ln then down l else None
+            | NUn _ nm c =>
+                if String.eqb k nm
+                then match c with
+                     | NTuple _ => match rest with [] => own | _ => None end
+                     | _ => holder_class p' c
+                     end
+                else None
             | _ => None
             end
         end
@@ -235,6 +273,7 @@ Section Pass.
   Variable ninf pinf : V.                      (* float("-inf"), float("inf") *)
   Variable half : V.                           (* RelativeWidthModifier(0.5): the default *)
   Variable bin : binop -> V -> V -> V.
+  Variable un : unop -> V -> V.
 
   Inductive wmod := WAbs (v : V) | WRel (v : V).
 
@@ -268,7 +307,7 @@ Section Pass.
   (* ---- mapper_from_prior_means ---- *)
   Definition derive_mean (a r : option V) (no_limits : bool) (n : node) (q : nat) (m : V) : res spec :=
     match lookup_class V q n with
-    | None => Exc EKey
+    | None => Exc (if own_place_class then EAttr else EKey)   (* the holder has no class: ModifiedPrior over a Prior *)
     | Some cls =>
       match last_path V q n with
       | None => Exc EKey
@@ -450,8 +489,8 @@ Section Pass.
       | NPrior p => option_map NConst (vals p)
       | NConst v => Some (NConst v)
       | NTuple ms => option_map (fun r => NTuple (sort_by (member_pos V) r)) (fix_members ms)   (* the realised tuple *)
-      | NBin _ _ _ _ _ =>                                                                  (* the realised float *)
-          match inst V bin vals n with IV v => Some (NConst v) | _ => None end
+      | NBin _ _ _ _ _ | NUn _ _ _ =>                                                      (* the realised float *)
+          match inst V bin un vals n with IV v => Some (NConst v) | _ => None end
       | NModel cls ctor attrs =>
           option_map (NModel cls ctor)
             ((fix go (a : list (string * node)) : option (list (string * node)) :=
@@ -495,7 +534,7 @@ Definition fpass (cfg : config float) (specs : list (nat * fspec)) : fmode -> no
        gl_mean_F gl_sigma_F lu_lower_F lu_upper_F lu_bad_lower_F prior_bad_limits_F sigma_negative_F
        neg_infinity infinity 0x1p-1%float cfg specs.
 
-Definition ffixed : node float -> list float -> option (node float) := fixed float fbin.
+Definition ffixed : node float -> list float -> option (node float) := fixed float fbin funop.
 
 Definition family_eqb (a b : family) : bool :=
   match a, b with
@@ -521,7 +560,7 @@ Definition spec_eqb (a b : fspec) : bool :=
 
 Definition binop_eqb (a b : binop) : bool :=
   match a, b with
-  | OAdd, OAdd | OSub, OSub | OMul, OMul | ODiv, ODiv => true
+  | OAdd, OAdd | OSub, OSub | OMul, OMul | ODiv, ODiv | OFloorDiv, OFloorDiv | OMod, OMod => true
   | _, _ => false
   end.
 
@@ -538,6 +577,8 @@ Fixpoint node_eqb (a b : node float) : bool :=
          end) xs ys
   | NBin o ln rn l r, NBin o' ln' rn' l' r' =>
       binop_eqb o o' && String.eqb ln ln' && String.eqb rn rn' && node_eqb l l' && node_eqb r r'
+  | NUn o nm c, NUn o' nm' c' =>
+      match o, o' with UNeg, UNeg | UAbs, UAbs => true | _, _ => false end && String.eqb nm nm' && node_eqb c c'
   | NModel c ct xs, NModel d dt ys =>
       String.eqb c d && list_eqb String.eqb ct dt &&
       (fix go (xs ys : list (string * node float)) : bool :=
@@ -558,7 +599,7 @@ Fixpoint node_eqb (a b : node float) : bool :=
 
 Definition exn_eqb (a b : exn) : bool :=
   match a, b with
-  | EMessage, EMessage | EPrior, EPrior | EIndex, EIndex | EKey, EKey | EType, EType => true
+  | EMessage, EMessage | EPrior, EPrior | EIndex, EIndex | EKey, EKey | EType, EType | EAttr, EAttr => true
   | _, _ => false
   end.
 
